@@ -30,7 +30,7 @@ Definition prefix_prec : Z := 130.
 Definition wrap32 (v : Z) : Z :=
   let m := v mod 4294967296 in if m <? 2147483648 then m else m - 4294967296.
 
-Definition sentinel : Z := 2125258413.   (* 0x7eaddead *)
+Definition sentinel : Z := 2125323949.   (* 0x7eaddead *)
 
 Inductive cres := COk (v : Z) | CDivZero | CShift | CStuck.   (* CShift: shift count outside 0..31 *)
 
